@@ -10,7 +10,8 @@ For every seed (patch.diff + seeded_demo.rs):
   3. write meta.json.
 Usage: tools/validate_seeds.py [seed-id ...] [--thorough]
 """
-import json, os, subprocess, sys, shutil, re
+import json, os, subprocess, sys, shutil, re, threading
+GIT_LOCK = threading.Lock()
 
 V = "/verif"
 SEEDS = os.path.join(V, "seeded")
@@ -38,7 +39,9 @@ def sh(cmd, cwd=None, env=None, timeout=3600):
 def test_summary(out):
     return re.findall(r"test result: (\w+)\. (\d+) passed; (\d+) failed", out)
 
-def validate(seed, thorough):
+def phase1(seed, scratch):
+    """scratch-worktree part (can run in parallel): applies, suite, demonstration with / without"""
+    SCRATCH = scratch
     d = os.path.join(SEEDS, seed)
     pid = seed.split("-")[0]
     patch = os.path.join(d, "patch.diff")
@@ -51,9 +54,10 @@ def validate(seed, thorough):
             if k in old:
                 meta[k] = old[k]
     # 1. scratch worktree
-    sh("git -C /repo worktree remove --force %s" % SCRATCH)
-    shutil.rmtree(SCRATCH, ignore_errors=True)
-    rc, out = sh("git -C /repo worktree add -q --detach %s HEAD" % SCRATCH)
+    with GIT_LOCK:
+        sh("git -C /repo worktree remove --force %s" % SCRATCH)
+        shutil.rmtree(SCRATCH, ignore_errors=True)
+        rc, out = sh("git -C /repo worktree add -q --detach %s HEAD" % SCRATCH)
     assert rc == 0, out
     try:
         rc, out = sh("git apply %s" % patch, cwd=SCRATCH)
@@ -86,8 +90,18 @@ def validate(seed, thorough):
         else:
             meta["demo_discriminates"] = None
     finally:
-        sh("git -C /repo worktree remove --force %s" % SCRATCH)
-        shutil.rmtree(SCRATCH, ignore_errors=True)
+        with GIT_LOCK:
+            sh("git -C /repo worktree remove --force %s" % SCRATCH)
+            shutil.rmtree(SCRATCH, ignore_errors=True)
+    return meta
+
+def phase2(seed, meta, thorough):
+    """the checks, on /repo itself (serial)"""
+    d = os.path.join(SEEDS, seed)
+    pid = seed.split("-")[0]
+    patch = os.path.join(d, "patch.diff")
+    if not meta.get("applies_to_repo_head"):
+        return meta
     # 2. the checks, on /repo itself
     rc, out = sh("git -C /repo status --porcelain --untracked-files=no")
     assert out.strip() == "", "/repo has uncommitted changes: " + out
@@ -115,8 +129,17 @@ def main():
     thorough = "--thorough" in sys.argv
     seeds = args or sorted(x for x in os.listdir(SEEDS) if os.path.isdir(os.path.join(SEEDS, x)))
     summary = []
+    jobs = 1
+    for a in sys.argv[1:]:
+        if a.startswith("--jobs="):
+            jobs = int(a.split("=")[1])
+    import concurrent.futures
+    with concurrent.futures.ThreadPoolExecutor(max_workers=jobs) as ex:
+        futs = {s: ex.submit(phase1, s, "%s-%d" % (SCRATCH, k)) for k, s in enumerate(seeds)}
+        metas = {s: f.result() for s, f in futs.items()}
+    print("phase 1 done", flush=True)
     for s in seeds:
-        m = validate(s, thorough)
+        m = phase2(s, metas[s], thorough)
         json.dump(m, open(os.path.join(SEEDS, s, "meta.json"), "w"), indent=1)
         line = "%-40s applies=%s suite=%s demo=%s detected=%s %s" % (s, m.get("applies_to_repo_head"), m.get("suite_passes_with_change"), m.get("demo_discriminates"), m.get("detected_by_owning_check_quick"),
               {k: v["exit"] for k, v in m.get("checks", {}).items()})
